@@ -154,6 +154,8 @@ func runCase(planText, rootText string) *WRes {
 // workerMain is the subprocess: one request line `<plan>\t<root>` in, one JSON line out.
 func workerMain() {
 	debug.SetMaxStack(48 << 20) // a runaway recursion ends quickly
+	// a runaway allocation ends quickly too (and cannot take the machine down): 4 GiB of address space
+	_ = syscall.Setrlimit(syscall.RLIMIT_AS, &syscall.Rlimit{Cur: 4 << 30, Max: 4 << 30})
 	// inspect prints to os.Stdout: keep the protocol on a private descriptor
 	fd, err := syscall.Dup(1)
 	if err != nil {
